@@ -23,6 +23,8 @@ type Fault struct {
 type HookT struct {
 	// Before is called before the operation; it may block.
 	Before func(op, path string) Fault
+	// After, when set, is called when a WriteFile has finished (successfully or not).
+	After func(op, path string)
 	// Now, when set, supplies the modification time given to every written file.
 	Now func() time.Time
 	// Overlay, when set, is consulted by ReadFile and Stat first: a simulated file that
@@ -99,6 +101,9 @@ func ReadFile(name string) ([]byte, error) {
 
 func WriteFile(name string, data []byte, perm real.FileMode) error {
 	f, h := before("WriteFile", name)
+	if h != nil && h.After != nil {
+		defer h.After("WriteFile", name)
+	}
 	switch f.Kind {
 	case "enospc":
 		return pathErr("write", name, syscall.ENOSPC)
